@@ -2329,6 +2329,7 @@ func (e *CoreExtension) functionParent(args ...interface{}) (interface{}, error)
 		// Create a clean context without parent() function to prevent recursion
 		cleanCtx := NewRenderContext(ctx.env, ctx.context, ctx.engine)
 		cleanCtx.sandboxed = ctx.sandboxed // parent() content stays inside the sandbox
+		cleanCtx.lastLoadedTemplate = ctx.lastLoadedTemplate
 		defer cleanCtx.Release()
 
 		// Copy all blocks and variables
